@@ -460,8 +460,9 @@ fn main() {
 
     // ---- phase 2 (thorough): level-1 universes, every ordered pair within slot distance d ------
     if r.thorough() {
-        // phase budget: 55% of the wall cap or 14 minutes, whichever is smaller
-        for (uni, share) in [(Uni::a(1), 0.70), (Uni::b(1), 1.0)] {
+        // per-universe wall windows (the small multi-instance universe first: it normally completes
+        // every distance, i.e. all ordered pairs)
+        for (uni, window) in [(Uni::b(1), 300.0f64), (Uni::a(1), 480.0f64)] {
             let t0 = r.elapsed_s();
             let pre = precompute(&uni);
             let sv = slot_vectors(&uni.states);
@@ -470,7 +471,7 @@ fn main() {
                 json!({"states": uni.states.len(), "raw_product": uni.raw, "slots": sv.slots,
                        "physically_order_sensitive_states": pre.iter().filter(|p| p.real_rev.is_some()).count()}),
             );
-            let budget_end = (840.0f64).min(0.55 * cap_s(&r)) * share;
+            let budget_end = (r.elapsed_s() + window).min(0.8 * cap_s(&r));
             let mut completed = 0u32;
             for d in 1..=sv.slots as u32 {
                 let cnt = count_at_distance(&sv, d);
